@@ -957,30 +957,48 @@ theorem insertAll_append {α} (m a b : List (String × α)) :
 theorem failCode_ne_zero {α} (r : Outcome α) : failCode r ≠ 0 := by
   cases r <;> simp [failCode]
 
+theorem stepOutput_of_failed (outs : Outputs) (name : String) (r : Outcome Value) (d : Option Value)
+    (p : Bool)
+    (h : (r.isOk && (match d with | some v => p && writable v | none => true)) = false) :
+    ∃ c, c ≠ 0 ∧ stepOutput outs name r d p = .exit c := by
+  cases d with
+  | none =>
+    simp only [Bool.and_true] at h
+    exact ⟨failCode r, failCode_ne_zero r, by simp [stepOutput, h]⟩
+  | some v =>
+    cases hp : p with
+    | false => exact ⟨1, by decide, by simp [stepOutput]⟩
+    | true =>
+      cases hw : writable v with
+      | false => exact ⟨1, by decide, by simp [stepOutput, hw]⟩
+      | true =>
+        simp only [hp, hw, Bool.and_true] at h
+        exact ⟨failCode r, failCode_ne_zero r, by simp [stepOutput, hw, h]⟩
+
 theorem stepEvent_of_succeeded (outs : Outputs) (e : Event) (h : e.succeeded = true) :
     stepEvent outs e = .next (storeEvent outs e) := by
   cases e with
-  | expr r => simp only [Event.succeeded] at h; simp [stepEvent, h, storeEvent, Event.stored, Event.declaredValue]
+  | expr r => simp only [Event.succeeded] at h; simp [stepEvent, h, storeEvent, Event.stored, Event.declaredValue, Event.declaredName]
   | outIdent n r b p =>
-    simp only [Event.succeeded, Bool.and_eq_true, Bool.or_eq_true] at h
-    cases b with
-    | none => simp [stepEvent, h.1, storeEvent, Event.stored, Event.declaredValue]
+    simp only [Event.succeeded, Bool.and_eq_true] at h
+    simp only [stepEvent, storeEvent, Event.stored, Event.declaredValue, Event.declaredName]
+    generalize Event.declared (.outIdent n r b p) = d at h ⊢
+    cases d with
+    | none => simp [stepOutput, h.1]
     | some v =>
-      have hp : p = true := by simpa using h.2
-      subst hp
-      simp only [stepEvent, Bool.not_true, Bool.false_eq_true, if_false, h.1, if_true, storeEvent,
-        Event.stored, Event.declaredValue, declare]
+      simp only [Bool.and_eq_true] at h
+      simp only [stepOutput, h.2.1, h.2.2, h.1, Bool.not_true, Bool.false_eq_true, if_false, if_true, declare]
       cases fromValue v <;> rfl
   | outAssign n r p =>
     simp only [Event.succeeded, Bool.and_eq_true] at h
-    obtain ⟨h1, hp⟩ := h
-    subst hp
-    cases r with
-    | ok v =>
-      simp only [stepEvent, Bool.not_true, Bool.false_eq_true, if_false, storeEvent, Event.stored,
-        Event.declaredValue, declare]
+    simp only [stepEvent, storeEvent, Event.stored, Event.declaredValue, Event.declaredName]
+    generalize Event.declared (.outAssign n r p) = d at h ⊢
+    cases d with
+    | none => simp [stepOutput, h.1]
+    | some v =>
+      simp only [Bool.and_eq_true] at h
+      simp only [stepOutput, h.2.1, h.2.2, h.1, Bool.not_true, Bool.false_eq_true, if_false, if_true, declare]
       cases fromValue v <;> rfl
-    | _ => simp [Outcome.isOk] at h1
   | comment => rfl
 
 theorem stepEvent_of_failed (outs : Outputs) (e : Event) (h : e.succeeded = false) :
@@ -989,30 +1007,8 @@ theorem stepEvent_of_failed (outs : Outputs) (e : Event) (h : e.succeeded = fals
   | expr r =>
     simp only [Event.succeeded] at h
     exact ⟨failCode r, failCode_ne_zero r, by simp [stepEvent, h]⟩
-  | outIdent n r b p =>
-    simp only [Event.succeeded, Bool.and_eq_false_iff, Bool.or_eq_false_iff] at h
-    cases b with
-    | none =>
-      rcases h with h | h
-      · exact ⟨failCode r, failCode_ne_zero r, by simp [stepEvent, h]⟩
-      · simp at h
-    | some v =>
-      cases p with
-      | false => exact ⟨1, by decide, by simp [stepEvent]⟩
-      | true =>
-        rcases h with h | h
-        · exact ⟨failCode r, failCode_ne_zero r, by simp [stepEvent, h]⟩
-        · simp at h
-  | outAssign n r p =>
-    simp only [Event.succeeded, Bool.and_eq_false_iff] at h
-    cases r with
-    | ok v =>
-      rcases h with h | h
-      · simp [Outcome.isOk] at h
-      · subst h; exact ⟨1, by decide, by simp [stepEvent]⟩
-    | err k => exact ⟨failCode (Outcome.err k : Outcome Value), failCode_ne_zero _, by simp [stepEvent]⟩
-    | panic s => exact ⟨failCode (Outcome.panic s : Outcome Value), failCode_ne_zero _, by simp [stepEvent]⟩
-    | fuel => exact ⟨failCode (Outcome.fuel : Outcome Value), failCode_ne_zero _, by simp [stepEvent]⟩
+  | outIdent n r b p => exact stepOutput_of_failed outs n r _ p h
+  | outAssign n r p => exact stepOutput_of_failed outs n r _ p h
   | comment => simp [Event.succeeded] at h
 
 theorem runEvents_all_ok : ∀ (evs : List Event) (outs : Outputs), (∀ e ∈ evs, e.succeeded = true) →
@@ -1180,6 +1176,19 @@ theorem fromValue_valOf : ∀ (sv : SV), sv.plain = true → fromValue (valOf sv
   | hbuiltin => intro h; simp [SV.plain] at h
   | _ => intros; rfl
 
+theorem stored_name {e : Event} {n : String} {sv : SV} (h : e.stored = some (n, sv)) :
+    e.declaredName = some n := by
+  unfold Event.stored Event.declaredValue at h
+  cases hn : e.declaredName with
+  | none => simp [hn] at h
+  | some m =>
+    cases hd : e.declared with
+    | none => simp [hn, hd] at h
+    | some v =>
+      simp only [hn, hd] at h
+      cases hf : fromValue v <;> simp [hf] at h
+      rw [h.1]
+
 theorem stored_names_of_all_stored : ∀ (evs : List Event),
     (∀ e ∈ evs, e.declaredName.isSome = true → e.stored.isSome = true) →
     (evs.filterMap Event.stored).map Prod.fst = evs.filterMap Event.declaredName
@@ -1187,26 +1196,52 @@ theorem stored_names_of_all_stored : ∀ (evs : List Event),
   | e :: rest, h => by
     have ih := stored_names_of_all_stored rest (fun x hx => h x (List.mem_cons_of_mem _ hx))
     have he := h e List.mem_cons_self
+    cases hn : e.declaredName with
+    | none =>
+      have : e.stored = none := by
+        cases hs : e.stored with
+        | none => rfl
+        | some q => cases q with
+          | mk m sv => rw [stored_name hs] at hn; cases hn
+      simp [hn, this, ih]
+    | some n =>
+      rw [hn] at he
+      cases hs : e.stored with
+      | none => simp [hs] at he
+      | some q =>
+        cases q with
+        | mk m sv =>
+          have := stored_name hs
+          rw [hn] at this; cases this
+          simp [hn, hs, ih]
+
+/-- a successful `output` of a serialisable value is stored -/
+theorem stored_of_succeeded {e : Event}
+    (hser : ∀ v, e.declared = some v → (fromValue v).isOk = true)
+    (hs : e.succeeded = true) (hn : e.declaredName.isSome = true) : e.stored.isSome = true := by
+  have hd : e.declared.isSome = true := by
     cases e with
-    | expr r => simpa [List.filterMap_cons, Event.stored, Event.declaredValue, Event.declaredName] using ih
-    | comment => simpa [List.filterMap_cons, Event.stored, Event.declaredValue, Event.declaredName] using ih
+    | expr r => simp [Event.declaredName] at hn
+    | comment => simp [Event.declaredName] at hn
     | outIdent n r b p =>
-      simp only [Event.declaredName, Option.isSome_some, forall_const] at he
-      cases b with
-      | none => simp [Event.stored, Event.declaredValue] at he
-      | some v =>
-        simp only [Event.stored, Event.declaredValue] at he
-        cases hf : fromValue v with
-        | ok sv => simp [Event.stored, Event.declaredValue, Event.declaredName, hf, ih]
-        | _ => simp [hf] at he
-    | outAssign n r p =>
-      simp only [Event.declaredName, Option.isSome_some, forall_const] at he
+      simp only [Event.succeeded, Bool.and_eq_true] at hs
       cases r with
-      | ok v =>
-        simp only [Event.stored, Event.declaredValue] at he
-        cases hf : fromValue v with
-        | ok sv => simp [Event.stored, Event.declaredValue, Event.declaredName, hf, ih]
-        | _ => simp [hf] at he
-      | _ => simp [Event.stored, Event.declaredValue] at he
+      | ok v => cases b <;> simp [Event.declared]
+      | _ => simp [Outcome.isOk] at hs
+    | outAssign n r p =>
+      simp only [Event.succeeded, Bool.and_eq_true] at hs
+      cases r with
+      | ok v => simp [Event.declared]
+      | _ => simp [Outcome.isOk] at hs
+  cases hdv : e.declared with
+  | none => simp [hdv] at hd
+  | some v =>
+    cases hnn : e.declaredName with
+    | none => simp [hnn] at hn
+    | some n =>
+      have := hser v hdv
+      cases hf : fromValue v with
+      | ok sv => simp [Event.stored, Event.declaredValue, hnn, hdv, hf]
+      | _ => simp [hf, Outcome.isOk] at this
 
 end Blots
